@@ -88,7 +88,16 @@ impl LKind {
     }
 }
 
-fn plain_payloads() -> Vec<(&'static str, Option<Vec<u8>>)> {
+fn plain_payloads() -> &'static Vec<(&'static str, Option<Vec<u8>>)> {
+    static ALL: std::sync::OnceLock<Vec<(&'static str, Option<Vec<u8>>)>> = std::sync::OnceLock::new();
+    ALL.get_or_init(plain_payloads_build)
+}
+/// index of the first one-bit-off payload: those are only sent as sasl-init with the mechanism the listener
+/// offers (with any other mechanism or as a response they add nothing to what the base payloads show)
+fn plain_base_len() -> usize {
+    plain_payloads().iter().position(|p| p.0.starts_with("one-bit-off")).unwrap_or(plain_payloads().len())
+}
+fn plain_payloads_build() -> Vec<(&'static str, Option<Vec<u8>>)> {
     vec![
         ("correct", Some(b"\0user\0password".to_vec())),
         ("wrong-user", Some(b"\0usex\0password".to_vec())),
@@ -102,7 +111,38 @@ fn plain_payloads() -> Vec<(&'static str, Option<Vec<u8>>)> {
         ("authzid", Some(b"authz\0user\0password".to_vec())),
         ("nul-inside-password", Some(b"\0user\0pass\0word".to_vec())),
         ("trailing-nul", Some(b"\0user\0password\0".to_vec())),
+        ("user-prefix", Some(b"\0use\0password".to_vec())),
+        ("both-empty", Some(b"\0\0".to_vec())),
     ]
+    .into_iter()
+    .chain(one_bit_off())
+    .collect()
+}
+
+/// the right credentials with ONE bit of ONE byte of the user name or of the password flipped: the letter-case
+/// bit 0x20, the lowest bit and the highest bit of every position
+fn one_bit_off() -> Vec<(&'static str, Option<Vec<u8>>)> {
+    static NAMES: std::sync::OnceLock<Vec<(&'static str, Vec<u8>)>> = std::sync::OnceLock::new();
+    NAMES
+        .get_or_init(|| {
+            let base = b"\0user\0password".to_vec();
+            let mut v = vec![];
+            for (i, b) in base.iter().enumerate() {
+                if *b == 0 {
+                    continue;
+                }
+                for bit in [0x20u8, 0x01, 0x80] {
+                    let mut x = base.clone();
+                    x[i] ^= bit;
+                    let name: &'static str = Box::leak(format!("one-bit-off(byte {i}, bit 0x{bit:02x})").into_boxed_str());
+                    v.push((name, x));
+                }
+            }
+            v
+        })
+        .iter()
+        .map(|(n, x)| (*n, Some(x.clone())))
+        .collect()
 }
 const PLAIN_ABSENT: usize = 7;
 
@@ -150,12 +190,16 @@ fn alphabet(kind: LKind) -> Vec<Act> {
         LKind::Plain => (plain_payloads().len(), plain_payloads().len()),
         LKind::Scram(_) => (SC_INIT.len(), SC_RESP.len()),
     };
+    let base = if kind == LKind::Plain { plain_base_len() } else { ni };
     for m in 0..4 {
         for p in 0..ni {
+            if p >= base && m != 0 {
+                continue;
+            }
             v.push(Act::Init(m, p));
         }
     }
-    for p in 0..nr {
+    for p in 0..nr.min(base) {
         if kind == LKind::Plain && p == PLAIN_ABSENT {
             continue; // the response field is mandatory: no "absent" form of a well-typed response
         }
